@@ -336,4 +336,15 @@ example :
       = ([.echo "a", .spawn 0 [] "a"], .error (.code 3)) := by
   simp [runLines, evalList, evalA, runCmd, echoes, concat, Cfg.loquacious, Status.toErr]
 
+/-- **only `y` and `yes` confirm**: an answer is accepted exactly when, blanks around it removed and
+letter case ignored, it is `y` or `yes` — so `ye`, `yess`, `yes please`, `y/n`, the empty line and
+everything else decline, and a declined recipe runs nothing (`unconfirmed_runs_nothing`) -/
+theorem confirm_accepts_iff (line : String) :
+    confirmAccepts line = true ↔
+      (trimBlanks line.toList).map Char.toLower = ['y'] ∨ (trimBlanks line.toList).map Char.toLower = ['y', 'e', 's'] := by
+  simp [confirmAccepts]
+
+example : confirmAccepts " Yes\t" = true ∧ confirmAccepts "Y" = true ∧ confirmAccepts "ye" = false ∧
+    confirmAccepts "yes please" = false ∧ confirmAccepts "" = false ∧ confirmAccepts "y/n" = false := by decide
+
 end Just.Props.C02
